@@ -1070,6 +1070,64 @@ func (env *SpecEnv) call(x SCall) SpecVal {
 			return SpecVal{T: And(App(">=", SBool, ref, env.old.nextRef), App("<", SBool, ref, env.st.nextRef))}
 		}
 		return SpecVal{T: App(">=", SBool, ref, env.old.nextRef)}
+	case "resultof":
+		// resultof(F) / resultof(F, k): the (k-th, default first) result of THE call of F in this function - a way to
+		// speak about a value the function obtained without naming the local variable it happens to be kept in (names of
+		// locals are not part of a function's behaviour; renaming one must not invalidate a clause). F must be called at
+		// exactly one place, and that call must already have been executed on the paths reaching the clause.
+		id, isIdent := x.Args[0].(SIdent)
+		if len(x.Args) < 1 || len(x.Args) > 2 || !isIdent {
+			specFail("resultof(F[, k]) takes a function name and an optional result index")
+		}
+		k := 0
+		if len(x.Args) == 2 {
+			lit, ok := x.Args[1].(SIntLit)
+			if !ok {
+				specFail("resultof: the result index must be a literal")
+			}
+			k = int(lit.V.Int64())
+		}
+		var found ssa.CallInstruction
+		for _, b := range fx.fn.Blocks {
+			for _, in := range b.Instrs {
+				ci, ok := in.(ssa.CallInstruction)
+				if !ok {
+					continue
+				}
+				if _, isDefer := in.(*ssa.Defer); isDefer {
+					continue
+				}
+				if calleeMatches(spawnKey(ci.Common()), id.Name) {
+					if found != nil {
+						specFail("resultof(%s): called at more than one place", id.Name)
+					}
+					found = ci
+				}
+			}
+		}
+		if found == nil {
+			specFail("resultof(%s): no such call in this function", id.Name)
+		}
+		v, isVal := found.(ssa.Value)
+		if !isVal {
+			specFail("resultof(%s): the call has no result", id.Name)
+		}
+		sig := found.Common().Signature()
+		if k >= sig.Results().Len() {
+			specFail("resultof(%s, %d): no such result", id.Name, k)
+		}
+		if sig.Results().Len() == 1 {
+			t, ok := fx.vals[v]
+			if !ok {
+				specFail("resultof(%s): the call has not been executed on this path", id.Name)
+			}
+			return SpecVal{T: t, Ty: sig.Results().At(0).Type()}
+		}
+		tup, ok := fx.tuples[v]
+		if !ok || k >= len(tup) {
+			specFail("resultof(%s): the call has not been executed on this path", id.Name)
+		}
+		return SpecVal{T: tup[k], Ty: sig.Results().At(k).Type()}
 	case "deferred":
 		// deferred(F): at this point a deferred call of F is registered on EVERY path that reaches here (it will run
 		// whichever way the function returns from now on). Decided on the symbolic defer stack, not by the solver.
